@@ -394,6 +394,31 @@ func Run(cfg fw.Config, rec *fw.Rec) {
 			rec.Violation("C11:expired-context-odd-result", fmt.Sprintf("terminating script under an expired context: exe=%v err=%v", exe, err), "terminating script, expired context")
 		}
 	}
+	// recursion that passes through a built-in (Array.prototype.forEach calling back into the
+	// script): interpreted recursion like any other, so it is within the property.  Last in
+	// the last batch, because an execution that does not stop keeps a processor busy.
+	if cfg.Batch == cfg.Batches-1 {
+		ctx, cancel := context.WithTimeout(context.Background(), 500*time.Millisecond)
+		done := make(chan error, 1)
+		t0 := time.Now()
+		go func() {
+			_, err := interp.Exec(ctx, match.Bindings{"n": 1.0}, nil, `function g() { [1].forEach(g); } g(); return {};`, nil)
+			done <- err
+		}()
+		select {
+		case err := <-done:
+			rec.Eval(1)
+			if err == nil {
+				rec.Violation("C11:no-timeout-error:recursion-through-a-builtin", "unbounded recursion through Array.prototype.forEach returned without error", "recursion through forEach, 500 ms deadline")
+			} else {
+				rec.Bucket("recursion_through_a_builtin_stopped")
+				rec.SetExtra("recursion_through_a_builtin_returned_after_ms", time.Since(t0).Milliseconds())
+			}
+		case <-time.After(500*time.Millisecond + hardSlack):
+			rec.Violation("C11:not-stopped:recursion-through-a-builtin", fmt.Sprintf("unbounded recursion through Array.prototype.forEach is still running %v after its 500 ms deadline", hardSlack), "recursion through forEach, 500 ms deadline")
+		}
+		cancel()
+	}
 	sort.Float64s(lateness)
 	if len(lateness) > 0 {
 		rec.SetExtra(fmt.Sprintf("lateness_ms_batch%d", cfg.Batch), map[string]float64{"p50": lateness[len(lateness)/2], "p99": lateness[len(lateness)*99/100], "max": lateness[len(lateness)-1]})
